@@ -228,6 +228,8 @@ def from_py(sch, t, x):
         if k == "f32":
             if not isinstance(x, float):
                 raise BadValue("not a float: %r" % (x,))
+            if x == x and bits_to_f32(f32_to_bits(x)) != x:
+                raise BadValue("not representable as f32: %r" % (x,))
             return f32_to_bits(x)
         if k == "f64":
             if not isinstance(x, float):
